@@ -479,8 +479,6 @@ def w3(proj, rep):
             if 'is_trace0' in init.params:
                 extras = [{'is_trace0': False}, {'is_trace0': True}]
             for is_real, extra in itertools.product(fields, extras):
-                if extra.get('euler_with_phase') and is_real:
-                    continue
                 cl = ctor_length(ci, opt, is_real, extra)
                 fl = func_lengths(proj, fi, extra)
                 tag = f'{cname}[{opt or "-"},{"real" if is_real else "complex"}' + (''.join(f',{k}={v}' for k, v in extra.items() if k in init.params)) + ']'
